@@ -12,7 +12,8 @@ def action(side, op, chunks=None, wb=0):
 def pr_case(cid, actions, wbs=0, max_=None, rbs=4096, seed=7, tail=6):
     return 'PR %s %d %s %d %d %d %s' % (cid, wbs, 'inf' if max_ is None else max_, rbs, seed, tail, ','.join(actions) if actions else '-')
 
-USER = ['wt:6869', 'wb:000102', 'wpi:70', 'f', 'r', 'c:-', 'c:1000:6279']
+R123 = '61' * 123; R122 = '62' * 122; P125 = '70' * 125; P124 = '71' * 124    # the largest legal control payloads
+USER = ['wt:6869', 'wb:000102', 'wpi:70', 'f', 'r', 'c:-', 'c:1000:6279', 'wt:6869', 'f', 'r', 'c:-', 'c:1000:' + R123, 'c:3000:' + R122, 'wpi:' + P125, 'wpi:' + P124, 'wpo:' + P125]
 
 def parse_pair_trace(t):
     out = []
@@ -28,7 +29,7 @@ class C04(Prop):
     engine_desc = ('E4 two real WebSockets (client, server) joined by in-memory reliable ordered byte channels under a deterministic scheduler with a reactive fair tail; '
                    'each endpoint run is replayed on the model as an E2 case (Protocol.run_ops)')
     rule = ('schedules: exhaustive interleavings of {write text, write binary, ping, flush, read, close} on both sides up to a bounded length with byte-granular deliveries (1, 2, all) and write WouldBlock windows, '
-            'simultaneous close, close with data/pings in flight, plus randomised long schedules; each followed by a fair tail (both flush+read everything, drop when told closed); distinct by pair trace')
+            'simultaneous close, close with data/pings in flight, Close reasons of 122/123 bytes and pings of 124/125 bytes (the largest legal control frames), plus randomised long schedules; each followed by a fair tail (both flush+read everything, drop when told closed); distinct by pair trace')
     level_text = ('two-party close-handshake theorems on Pair.v (the Protocol model composed with reliable FIFO byte channels): safety for all schedules; liveness for the fair-rounds form; '
                   'endpoints tied to the code by E4/E2 correspondence, the channel is the stated assumption (reliable ordered transport)')
     level_note = 'Trusted: Coq kernel, Protocol.v + Pair.v, correspondence; liveness proved for canonical fair rounds (see props file for the exact statement)'
@@ -46,6 +47,10 @@ class C04(Prop):
             ['c;wt:6869', 'c;c:-', 's;wt:6869;w2', 's;c:-'],               # close while a write is blocked
             ['c;wt:6869', 'c;f', 'c;c:1000:6279', 's;wb:000102', 's;f'],
             ['s;wpi:70', 'c;r;d1000', 'c;c:-', 's;r;d1'],
+            ['c;c:1000:' + R123], ['s;c:1000:' + R123], ['c;c:3000:' + R122], ['s;c:4999:' + R122],      # Close frames of 124/125 payload bytes
+            ['c;c:1000:' + R123, 's;c:1000:' + R122],
+            ['c;wpi:' + P125, 's;r;d1000', 's;c:4999:' + R122], ['s;wpi:' + P124, 'c;c:-'], ['s;wpi:' + P125, 'c;r;d1000', 'c;c:-'],
+            ['c;wpi:' + P124, 'c;c:-'], ['c;wpo:' + P125, 's;c:-'],
         ]
         for a in seeds:
             for wbs in (0, 600):
